@@ -219,59 +219,65 @@ long m_strtol(const char *nptr, char **endptr, int base)
  * ("1..3"), extra component ("1.2.3.4"), non-numeric ("1.O.0"), sign ("+1.2.3",
  * "-1.0.0"), white space (" 1.2.3"), trailing garbage ("1.2.3x"), a number
  * that does not fit an int.
- * spec_wellformed(s); spec_value(s, k): the value of component k of a well-formed s;
- * spec_strict(s, k): -1 if s is not well-formed, else spec_value(s, k).
+ * Each scanner makes one pass, position by position (constant indices keep the SAT
+ * problem small) and returns the SHAPE: where the three numbers are.
  * ------------------------------------------------------------------------ */
-/* spec_run(s, k, end): -1 if s does not have the SHAPE digits.digits.digits[-anything],
- * else the offset where component k starts (end = 0) or ends (end = 1) */
-static int spec_run(const char *s, int k, int end)
+struct vp_shape {
+	int ok;                  /* the string has the shape */
+	int a[3], b[3];          /* component c is the digit run s[a[c]..b[c]) */
+	int neg[3];              /* it carries a '-' sign (lenient language only) */
+};
+
+/* the shape digits.digits.digits[-anything] */
+static struct vp_shape vp_shape_strict(const char *s)
 {
-	/* one pass, position by position (constant indices keep the SAT problem small) */
-	int comp = 0;                    /* component being read: 0 major, 1 minor, 2 patch */
-	int a[3] = { -1, -1, -1 };       /* component c is the digit run s[a[c]..b[c]) */
-	int b[3] = { -1, -1, -1 };
+	struct vp_shape sh = { 0, { -1, -1, -1 }, { -1, -1, -1 }, { 0, 0, 0 } };
+	int comp = 0;            /* component being read: 0 major, 1 minor, 2 patch */
 	for (int i = 0; i < VP_N; i++) {
 		char c = s[i];
 		if (c >= '0' && c <= '9') {
-			if (a[comp] < 0)
-				a[comp] = i;
+			if (sh.a[comp] < 0)
+				sh.a[comp] = i;
 		} else if (c == '.' && comp < 2) {
-			if (a[comp] < 0)
-				return -1;       /* empty component */
-			b[comp] = i;
+			if (sh.a[comp] < 0)
+				return sh;       /* empty component */
+			sh.b[comp] = i;
 			comp++;
 		} else if ((c == '\0' || c == '-') && comp == 2) {
-			if (a[2] < 0)
-				return -1;
-			b[2] = i;
-			return end ? b[k] : a[k];
+			if (sh.a[2] < 0)
+				return sh;
+			sh.b[2] = i;
+			sh.ok = 1;
+			return sh;
 		} else {
-			return -1;
+			return sh;
 		}
 	}
-	return -1;                       /* not terminated within VP_N bytes */
+	return sh;                       /* not terminated within VP_N bytes */
 }
-#define VP_A(s, k) spec_run((s), (k), 0)
-#define VP_B(s, k) spec_run((s), (k), 1)
+static int vp_wellformed_shape(const char *s, struct vp_shape sh)
+{
+	return sh.ok && vp_fits_int(s, sh.a[0], sh.b[0]) && vp_fits_int(s, sh.a[1], sh.b[1]) &&
+		vp_fits_int(s, sh.a[2], sh.b[2]);
+}
 static int spec_wellformed(const char *s)
 {
-	return VP_A(s, 0) >= 0 &&
-		vp_fits_int(s, VP_A(s, 0), VP_B(s, 0)) &&
-		vp_fits_int(s, VP_A(s, 1), VP_B(s, 1)) &&
-		vp_fits_int(s, VP_A(s, 2), VP_B(s, 2));
+	return vp_wellformed_shape(s, vp_shape_strict(s));
 }
 /* value of component k of a well-formed string */
 static int spec_value(const char *s, int k)
 {
-	return (int) (vp_dec_mag(s, VP_A(s, k), VP_B(s, k)) & 0x7fffffffUL);
+	struct vp_shape sh = vp_shape_strict(s);
+	return (int) (vp_dec_mag(s, sh.a[k], sh.b[k]) & 0x7fffffffUL);
 }
+/* -1 if s is not well-formed, else the value of component k */
 static int spec_strict(const char *s, int k)
 {
 	return spec_wellformed(s) ? spec_value(s, k) : -1;
 }
 
-/* spec_actual(s, k): the language the code at the pinned commit really accepts (FINDING,
- * see plan/C14.json): like spec_strict, but additionally
+/* The language the code at the pinned commit really accepts (FINDING, see
+ * plan/C14.json): like the strict one, but additionally
  *   (L1) runs of '.' before any component and runs of '.'/'-' before the patch are skipped
  *        (".1.2.3", "1..2.3", "1.2.-3"),
  *   (L2) everything after a '.' that follows the patch is ignored ("1.2.3.4"),
@@ -281,13 +287,11 @@ static int spec_strict(const char *s, int k)
  *        if the result is non-negative ("4294967297.0.0" is 1.0.0).
  * Used (a) to carve exactly these strings out of the strict contract and (b) to prove
  * that nothing else is accepted. */
-/* shape only: -1 if refused for its shape, else for component k the offset where its
- * digits start (what = 0) / end (what = 1), or whether it carries a '-' (what = 2) */
-static int spec_actual_run(const char *s, int k, int what)
+static struct vp_shape vp_shape_actual(const char *s)
 {
+	struct vp_shape sh = { 0, { -1, -1, -1 }, { -1, -1, -1 }, { 0, 0, 0 } };
 	int comp = 0;
 	int ph = 0;              /* 0 before the number, 1 in its white space, 2 after its sign, 3 in its digits */
-	int a[3] = { -1, -1, -1 }, b[3] = { -1, -1, -1 }, neg[3] = { 0, 0, 0 };
 	for (int i = 0; i < VP_N; i++) {
 		char c = s[i];
 		int isdelim = (c == '.' || (comp == 2 && c == '-'));
@@ -298,33 +302,32 @@ static int spec_actual_run(const char *s, int k, int what)
 			continue;
 		}
 		if (ph <= 1 && (c == '+' || (c == '-' && comp < 2))) {
-			neg[comp] = (c == '-');                          /* L3 */
+			sh.neg[comp] = (c == '-');                       /* L3 */
 			ph = 2;
 			continue;
 		}
 		if (c >= '0' && c <= '9') {
 			if (ph != 3)
-				a[comp] = i;
+				sh.a[comp] = i;
 			ph = 3;
 			continue;
 		}
 		if (ph == 3 && (isdelim || c == '\0')) {
-			b[comp] = i;
-			if (comp == 2)                                   /* L2: the rest is ignored */
-				return what == 0 ? a[k] : what == 1 ? b[k] : neg[k];
+			sh.b[comp] = i;
+			if (comp == 2) {
+				sh.ok = 1;                               /* L2: the rest is ignored */
+				return sh;
+			}
 			if (c == '\0')
-				return -1;                               /* missing component */
+				return sh;                               /* missing component */
 			comp++;
 			ph = 0;
 			continue;
 		}
-		return -1;
+		return sh;
 	}
-	return -1;
+	return sh;
 }
-#define VA_A(s, k)   spec_actual_run((s), (k), 0)
-#define VA_B(s, k)   spec_actual_run((s), (k), 1)
-#define VA_NEG(s, k) spec_actual_run((s), (k), 2)
 /* the digits s[a..b) with sign neg, as version_parse stores them: strtol must not
  * overflow a long; L4: the conversion long -> int keeps the low 32 bits on this ABI
  * and the result must not be negative.  -1 if refused. */
@@ -338,16 +341,22 @@ static int vp_actual_value(const char *s, int a, int b, int neg)
 		return -1;
 	return (int) low;
 }
+static int vp_accepted_shape(const char *s, struct vp_shape sh)
+{
+	return sh.ok && vp_actual_value(s, sh.a[0], sh.b[0], sh.neg[0]) >= 0 &&
+		vp_actual_value(s, sh.a[1], sh.b[1], sh.neg[1]) >= 0 &&
+		vp_actual_value(s, sh.a[2], sh.b[2], sh.neg[2]) >= 0;
+}
+static int spec_accepted(const char *s)
+{
+	return vp_accepted_shape(s, vp_shape_actual(s));
+}
+/* -1 if s is refused by the code at the pinned commit, else what it stores for component k */
 static int spec_actual(const char *s, int k)
 {
-	if (VA_A(s, 0) < 0)
-		return -1;
-	for (int c = 0; c < 3; c++)
-		if (vp_actual_value(s, VA_A(s, c), VA_B(s, c), VA_NEG(s, c)) < 0)
-			return -1;
-	return vp_actual_value(s, VA_A(s, k), VA_B(s, k), VA_NEG(s, k));
+	struct vp_shape sh = vp_shape_actual(s);
+	return vp_accepted_shape(s, sh) ? vp_actual_value(s, sh.a[k], sh.b[k], sh.neg[k]) : -1;
 }
-#define VP_ACCEPTED(s) (spec_actual((s), 0) >= 0)
 
 /* every maximal run of digits is a number <= INT_MAX (so that the conversion
  * (int) strtol(..) in version_parse never narrows, whether the string is accepted or not) */
@@ -379,11 +388,58 @@ static int spec_terminated(const char *s)
 	return 0;
 }
 
-#define VP_WELLFORMED(s)  (spec_wellformed(s))
 /* CARVE-OUT (finding "lenient version_parse"): the strings on which the two languages
  * differ, and those holding a number that (int) strtol(..) would narrow */
-#define VP_CARVE(s)       (spec_wellformed(s) == VP_ACCEPTED(s) && spec_ints_fit(s))
+static int spec_outside_finding(const char *s)
+{
+	return spec_wellformed(s) == spec_accepted(s) && spec_ints_fit(s);
+}
 #define VP_COMPAT(w0, w1, h0, h1) ((w0) == (h0) && (w1) <= (h1))
+
+/* ---- the contract of version_parse as predicates (one evaluation of each scanner) ---- */
+/* precondition: terminated, outside the finding */
+static int vp_pre(const char *version)
+{
+	return version == NULL || (spec_terminated(version) && spec_outside_finding(version));
+}
+/* accepted exactly when well-formed */
+static int vp_post_iff(const char *version, int ret)
+{
+	return (ret == 0) == (version != NULL && spec_wellformed(version));
+}
+/* on acceptance: the three numbers strtol converted are exactly the three components of
+ * the grammar (positions recorded by the libc model) and tuple[] holds their values */
+static int vp_post_numbers(const char *version, int ret, const int *tuple)
+{
+	if (ret != 0)
+		return 1;
+	struct vp_shape sh = vp_shape_strict(version);
+	for (int c = 0; c < 3; c++) {
+		if (m_conv_a[c] != sh.a[c] || m_conv_b[c] != sh.b[c])
+			return 0;
+		if (tuple[c] < 0 || (unsigned long) tuple[c] != vp_dec_mag(version, m_conv_a[c], m_conv_b[c]))
+			return 0;
+	}
+	return 1;
+}
+/* the same for the language really accepted */
+static int va_post_iff(const char *version, int ret)
+{
+	return (ret == 0) == (version != NULL && spec_accepted(version));
+}
+static int va_post_numbers(const char *version, int ret, const int *tuple)
+{
+	if (ret != 0)
+		return 1;
+	struct vp_shape sh = vp_shape_actual(version);
+	for (int c = 0; c < 3; c++) {
+		if (m_conv_a[c] != sh.a[c] || m_conv_b[c] != sh.b[c])
+			return 0;
+		if (tuple[c] != vp_actual_value(version, m_conv_a[c], m_conv_b[c], sh.neg[c]))
+			return 0;
+	}
+	return 1;
+}
 
 /* diagnostics counters: callee contracts that are also used for replacement tolerate
  * the few increments made by their callers (top level: DIAG_PRE, < 1e6) */
